@@ -39,7 +39,18 @@ def _record_all_methods(H, cls, trace, returns, skip=()):
         if not isinstance(f, types.FunctionType) or name in skip or name.startswith("__"):
             continue
 
-        def rec(I, self_, *a, _name=name, **k):
+        def rec(I, self_, *a, _name=name, _f=f, **k):
+            # recorded by parameter NAME, however the caller spelled the call (positionally or by keyword)
+            import inspect
+
+            try:
+                ba = inspect.signature(_f).bind_partial(self_, *a, **k)
+                names = list(inspect.signature(_f).parameters)
+                a, k = (), {n: v for n, v in ba.arguments.items() if n != names[0] and inspect.signature(_f).parameters[n].kind not in (inspect.Parameter.VAR_POSITIONAL, inspect.Parameter.VAR_KEYWORD)}
+                extra = ba.arguments.get(next((n for n, p in inspect.signature(_f).parameters.items() if p.kind is inspect.Parameter.VAR_POSITIONAL), ""), ())
+                a = tuple(extra)
+            except TypeError:
+                pass
             trace.append((_name, self_, a, k))
             r = returns.get(_name)
             return r(self_, *a, **k) if r else self_
@@ -461,11 +472,11 @@ def copy_form(H):
     H.prove(ok, "copy_form.clones_then_converts_the_clone", detail=str(names))
     if ok:
         a, k = trace[1][2], dict(trace[1][3])
-        H.prove(k.pop("inplace", None) is True, "copy_form.clone_converted_in_place")
-        # the other arguments arrive unchanged (positionally or by keyword)
+        # arguments by parameter name, however the call was spelled (positionally or by keyword)
         sig = list(inspect.signature(real).parameters)[1:]
         bound = dict(zip(sig, a))
         bound.update(k)
+        H.prove(bound.pop("inplace", None) is True, "copy_form.clone_converted_in_place")
         want = dict(zip(sig, args))
         want.update(kwargs)
         same = all(n in bound and (bound[n] is v or _same(H, bound[n], v) is True or (isinstance(v, (tuple, str)) and bound[n] == v)) for n, v in want.items())
